@@ -1,5 +1,6 @@
 """U-LOCALCALL: Typer::infer_call_expr, the arm for a callee that is a local variable (fragment) — C03."""
 import re
+from units.common import arm_guard
 from vlib.gen import Unit, Fn, Adt, Raw
 
 C = "crates/compiler/src/typer/check.rs"
@@ -83,6 +84,8 @@ UNIT = Unit(
              "fresh_ty_var, error_expr and the three record_* leave it alone); LocalTypeEnv::lookup_var, HirTable::local_ident_name, push_ice are stubs without contract",
              "that the solver rejects an unsatisfiable equation is the unifier's job (not under contract)"],
     items=[
+        arm_guard("crates/compiler/src/typer/check.rs", "infer_call_expr", 'Typer', r"match func_expr \{",
+                  ['hir::Expr::ENameRef', 'hir::Expr::ENameRef', 'hir::Expr::ENameRef', 'hir::Expr::EStaticMember', 'hir::Expr::EField', '_']),
         Adt(file=T, kw="enum", name="Ty", rules=["attrs"]),
         Adt(file=T, kw="struct", name="TastIdent", rules=["attrs"]),
         Adt(file="crates/common-defs/src/lib.rs", kw="enum", name="UnaryOp", rules=["attrs"]),
